@@ -647,6 +647,7 @@ def box_core_rules(ck, P, rule="R-BOX"):
                 ir.place_str(ctor[0]["a"][2]) == "self.level"
     ck.check(oki, rule, b["q"], "rows y_min..=y_max outside, columns x_min..=x_max inside, TileCoord3::new(x, y, level)", "iter_coords does not enumerate the box row by row as (x, y, level)", ir.loc(b))
     box_ctor_rules(ck, P, rule)
+    pyramid_delegation_rules(ck, P, rule)
     # ---- scale_down
     b = fns["scale_down"]
     r = paths(P, b, fields)
@@ -752,3 +753,92 @@ def box_ctor_rules(ck, P, rule="R-BOX"):
     from . import mvt
     cnt = mvt.exit_counts(P, b, lambda y: 1 if (y.get("k") == "mcall" and (ir.callee(y) or "").endswith("TileBBox::include_coord")) else None)
     ck.check(okd and cnt == {1}, rule, b["q"], "include_coord3 hands (coord.x, coord.y) to include_coord on every successful path", "include_coord3 does not include (coord.x, coord.y) exactly once", ir.loc(b))
+
+
+def pyramid_delegation_rules(ck, P, rule="R-BOX"):
+    """TileBBoxPyramid applies each box operation to the level the argument belongs to (or to every level):
+       include_coord(c)  -> level_bbox[c.z].include_coord(c.x, c.y)      include_bbox(b) -> level_bbox[b.level].include_bbox(b)
+       set_level_bbox(b) -> level_bbox[b.level] = b                      get_level_bbox(l) -> &level_bbox[l]
+       intersect(o)      -> every level: bbox.intersect_bbox(o.get_level_bbox(level))
+       intersect_geo_bbox(g) -> every level z: bbox.intersect_bbox(TileBBox::from_geo(z, g))        (each exactly once on every path)"""
+    from . import mvt
+
+    def f(name):
+        r = [b for b in P.bodies if b["q"].endswith("tile_bbox_pyramid::TileBBoxPyramid::" + name)]
+        return r[0] if r else None
+    names = ("include_coord", "include_bbox", "set_level_bbox", "get_level_bbox", "intersect", "intersect_geo_bbox")
+    fns = {n: f(n) for n in names}
+    if not ck.anchor(rule, "TileBBoxPyramid delegations", [v for v in fns.values() if v], len(names)):
+        return
+
+    def param(b, i=0):
+        ps = [x for p_ in b["params"] for x in ir.pat_binds(p_) if x["name"] != "self"]
+        return ps[i] if len(ps) > i else None
+
+    def idx_field(e, phid, fld):
+        """e is self.level_bbox[<param>.<fld> as usize] (the index may go through a let)"""
+        e = ir.strip(e)
+        if e.get("k") != "index" or not ir.place_str(e["e"]).endswith("level_bbox"):
+            return False
+        i = ir.strip(e["i"])
+        return any(z.get("k") == "field" and z.get("name") == fld and ir.local_hid(z["e"]) == phid for z in ir.walk_nodes(i)) or _through_let(i, phid, fld)
+    lets_cache = {}
+
+    def _through_let(i, phid, fld):
+        h = ir.local_hid(i) if i.get("k") in ("path", "cast") else None
+        return False if h is None else any(z.get("k") == "field" and z.get("name") == fld and ir.local_hid(z["e"]) == phid for z in ir.walk_nodes(lets_cache.get(h) or {}))
+    # include_coord
+    b = fns["include_coord"]
+    p0 = param(b)
+    c = [y for y in ir.walk_nodes(b["body"]) if y.get("k") == "mcall" and (ir.callee(y) or "").endswith("TileBBox::include_coord") and len(y.get("a", ())) == 2]
+    ok = len(c) == 1 and p0 and idx_field(c[0]["recv"], p0["hid"], "z") and ir.place_str(c[0]["a"][0]) == p0["name"] + ".x" and ir.place_str(c[0]["a"][1]) == p0["name"] + ".y" and \
+        mvt.exit_counts(P, b, lambda y: 1 if (y.get("k") == "mcall" and (ir.callee(y) or "").endswith("TileBBox::include_coord")) else None) == {1}
+    ck.check(ok, rule, b["q"], "include_coord(c) = level_bbox[c.z].include_coord(c.x, c.y)", "the pyramid does not include (c.x, c.y) into level c.z", ir.loc(b))
+    # include_bbox
+    b = fns["include_bbox"]
+    p0 = param(b)
+    c = [y for y in ir.walk_nodes(b["body"]) if y.get("k") == "mcall" and (ir.callee(y) or "").endswith("TileBBox::include_bbox") and len(y.get("a", ())) == 1]
+    ok = len(c) == 1 and p0 and idx_field(c[0]["recv"], p0["hid"], "level") and ir.local_hid(c[0]["a"][0]) == p0["hid"] and \
+        mvt.exit_counts(P, b, lambda y: 1 if (y.get("k") == "mcall" and (ir.callee(y) or "").endswith("TileBBox::include_bbox")) else None) == {1}
+    ck.check(ok, rule, b["q"], "include_bbox(b) = level_bbox[b.level].include_bbox(b)", "the pyramid does not include the box into its own level", ir.loc(b))
+    # set_level_bbox
+    b = fns["set_level_bbox"]
+    p0 = param(b)
+    for y in ir.walk_nodes(b["body"]):
+        if y.get("k") == "let" and "init" in y and y["pat"].get("k") == "bind":
+            lets_cache[y["pat"]["hid"]] = y["init"]
+    asg = [y for y in ir.walk_nodes(b["body"]) if y.get("k") == "assign" and ir.strip(y["l"]).get("k") == "index"]
+    ok = len(asg) == 1 and p0 and idx_field(asg[0]["l"], p0["hid"], "level") and ir.local_hid(asg[0]["r"]) == p0["hid"]
+    ck.check(ok, rule, b["q"], "set_level_bbox(b) stores b at level b.level", "set_level_bbox does not store the box at its own level", ir.loc(b))
+    # get_level_bbox
+    b = fns["get_level_bbox"]
+    p0 = param(b)
+    t = ir.strip(_tail(b))
+    ok = t.get("k") == "index" and ir.place_str(t["e"]).endswith("level_bbox") and p0 and any(z.get("k") == "path" and z.get("hid") == p0["hid"] for z in ir.walk_nodes(t["i"])) and \
+        not any(z.get("k") == "bin" for z in ir.walk_nodes(t["i"]))
+    ck.check(ok, rule, b["q"], "get_level_bbox(l) = &level_bbox[l]", "get_level_bbox does not return the box of the requested level", ir.loc(b))
+    # intersect / intersect_geo_bbox: per level, exactly one intersect_bbox on the visited box with the right operand
+    for nm in ("intersect", "intersect_geo_bbox"):
+        b = fns[nm]
+        p0 = param(b)
+        lp = [n for n in ir.walk_nodes(b["body"]) if n.get("k") == "for"]
+        ok, why = False, "%d loops" % len(lp)
+        if len(lp) == 1 and p0:
+            lv = ir.pat_binds(lp[0]["pat"])
+            cnt = mvt.exit_counts(P, {"body": lp[0]["body"]}, lambda y: 1 if (y.get("k") == "mcall" and (ir.callee(y) or "").endswith("TileBBox::intersect_bbox") and ir.local_hid(y["recv"]) in {x["hid"] for x in lv}) else None)
+            calls = [y for y in ir.walk_nodes(lp[0]["body"]) if y.get("k") == "mcall" and (ir.callee(y) or "").endswith("TileBBox::intersect_bbox")]
+            lets_ = {y["pat"]["hid"]: y["init"] for y in ir.walk_nodes(lp[0]["body"]) if y.get("k") == "let" and "init" in y and y["pat"].get("k") == "bind"}
+            arg_ok = False
+            if len(calls) == 1:
+                a = calls[0]["a"][0]
+                if ir.local_hid(a) in lets_:
+                    a = lets_[ir.local_hid(a)]
+                idxh = {x["hid"] for x in lv}
+                uses_level = any(z.get("k") == "path" and z.get("r") == "local" and z.get("hid") in idxh for z in ir.walk_nodes(a))
+                uses_param = any(z.get("k") == "path" and z.get("r") == "local" and z.get("hid") == p0["hid"] for z in ir.walk_nodes(a))
+                callee_ok = ir.contains(a, lambda z: (z.get("k") == "mcall" and (ir.callee(z) or "").endswith("TileBBoxPyramid::get_level_bbox")) or (z.get("k") == "call" and (z.get("q") or "").endswith("TileBBox::from_geo")))
+                arg_ok = uses_level and uses_param and callee_ok
+            esc = [y["k"] for y in ir.walk_nodes(lp[0]["body"]) if y.get("k") in ("break", "continue")]
+            ok = cnt <= {1} and 1 in cnt and arg_ok and not esc
+            why = "intersections per level %s, operand from the same level of the argument: %s" % (sorted(cnt), arg_ok)
+        ck.check(ok, rule, b["q"], "%s intersects every level's box with the argument's box of the same level" % nm, "%s does not intersect level by level (%s)" % (nm, why), ir.loc(b))
